@@ -56,7 +56,7 @@ type Redundant struct {
 }
 
 func (c *Case) lossless() bool {
-	return c.BufferSize == 0 && (c.Backend == "channel" || c.Backend == "queue" || c.Backend == "deque")
+	return c.BufferSize == 0 && (c.Backend == "channel" || c.Backend == "queue" || c.Backend == "deque" || c.filtered())
 }
 
 func mkBroker(ctx context.Context, c *Case) (*pubsub.Broker[int], func()) {
@@ -76,10 +76,30 @@ func mkBroker(ctx context.Context, c *Case) (*pubsub.Broker[int], func()) {
 			panic(err)
 		}
 		return pubsub.NewQueueBroker[int](ctx, q, opts), func() { _ = q.Close() }
+	case "queue-filtered", "deque-filtered":
+		// a broker over a distributor with an output filter (and, for the
+		// deque, an input filter as well): the filters decide which
+		// messages exist for the subscribers at all
+		var d pubsub.Distributor[int]
+		var closer func()
+		if c.Backend == "queue-filtered" {
+			q := pubsub.NewUnlimitedQueue[int]()
+			d, closer = q.Distributor().WithOutputFilter(passes), func() { _ = q.Close() }
+		} else {
+			dq := pubsub.NewUnlimitedDeque[int]()
+			d, closer = dq.Distributor().WithInputFilter(passes), func() { _ = dq.Close() }
+		}
+		return pubsub.MakeDistributorBroker[int](ctx, d, opts), closer
 	default:
 		return pubsub.NewLIFOBroker[int](ctx, opts, c.Capacity), nil
 	}
 }
+
+// passes is the filter of the filtered back-ends: every third message of a
+// publisher is dropped.
+func passes(v int) bool { return v%3 != 2 }
+
+func (c *Case) filtered() bool { return c.Backend == "queue-filtered" || c.Backend == "deque-filtered" }
 
 type subState struct {
 	ch        chan int
@@ -242,7 +262,7 @@ func runCase(c *Case) (string, string) {
 		out := map[int]bool{}
 		un := s.unsubCall.Load()
 		for id := 0; id < total; id++ {
-			if pubCall[id].Load() > s.subStamp && (un == 0 || pubReturn[id].Load() < un) {
+			if pubCall[id].Load() > s.subStamp && (un == 0 || pubReturn[id].Load() < un) && (!c.filtered() || passes(valOf(id))) {
 				out[valOf(id)] = true
 			}
 		}
@@ -311,6 +331,9 @@ func runCase(c *Case) (string, string) {
 			id := idOfVal(v)
 			if v < 1000 || v%1000 >= c.Messages || v/1000 > c.Publishers || pubCall[id].Load() == 0 {
 				return "invented", fmt.Sprintf("subscriber %d received %d, which was never published", i, v)
+			}
+			if c.filtered() && !passes(v) {
+				return "filtered-delivered", fmt.Sprintf("subscriber %d received %d, which the distributor's filter rejects", i, v)
 			}
 			if seen[v] {
 				return "duplicate", fmt.Sprintf("subscriber %d received message %d twice (%v)", i, v, got)
@@ -390,10 +413,10 @@ func runCase(c *Case) (string, string) {
 
 func genCase(t *rapid.T) *Case {
 	c := &Case{
-		Backend:    rapid.SampledFrom([]string{"channel", "queue", "deque", "channel", "queue", "deque", "queue-bounded", "lifo"}).Draw(t, "backend"),
+		Backend:    rapid.SampledFrom([]string{"channel", "queue", "deque", "channel", "queue", "deque", "queue-bounded", "lifo", "queue-filtered", "deque-filtered"}).Draw(t, "backend"),
 		Capacity:   rapid.IntRange(1, 4).Draw(t, "capacity"),
 		Parallel:   rapid.Bool().Draw(t, "parallel"),
-		Workers:    rapid.IntRange(0, 3).Draw(t, "workers"),
+		Workers:    rapid.SampledFrom([]int{-2, -1, 0, 0, 1, 1, 2, 3}).Draw(t, "workers"), // "if unset this defaults to 1"
 		Publishers: rapid.IntRange(1, 4).Draw(t, "publishers"),
 		Messages:   rapid.IntRange(1, 12).Draw(t, "messages"),
 		PubYields:  rapid.SliceOfN(rapid.IntRange(0, 4), 1, 4).Draw(t, "pubYields"),
